@@ -193,3 +193,5 @@ def run(run: common.Run):
         run.sample(dict(case={k: case[k] for k in ('i', 'model', 'kernel', 'halvings', 'threads', 'ab', 'mask', 'proc_ref')},
                         src_px=src.px, ref_px=ref.px, worst_rel_err=worst), 4)
     resamp.check_resampler(run, 45 if run.quick() else 600)
+    import fuseimg
+    fuseimg.whole_image_leg(run, 8 if run.quick() else 80, blocks=(0,))
